@@ -73,7 +73,10 @@ def load_consts(path):
             if line.startswith("const "):
                 m = pat.match(line.rstrip("\n"))
                 if m:
-                    engine.NAMED_CONSTS[m.group(1).split("::")[-1]] = m.group(3)
+                    name = m.group(1).split("::")[-1]
+                    engine.NAMED_CONSTS[name] = m.group(3)
+                    if m.group(3) not in engine.NAMED_CONSTS_ALL.setdefault(name, []):
+                        engine.NAMED_CONSTS_ALL[name].append(m.group(3))
 
 
 def get_fn(crate, suffix, sig=None):
@@ -105,7 +108,8 @@ def replay_crate_dir():
         shutil.rmtree(dst)
     shutil.copytree(src, dst, ignore=shutil.ignore_patterns("target", "Cargo.lock"))
     p = os.path.join(dst, "Cargo.toml")
-    open(p, "w").write(open(p).read().replace('"/repo/', '"%s/' % REPO))
+    text = open(p).read().replace('"/repo/', '"%s/' % REPO)
+    open(p, "w").write(text)
     return dst
 
 
